@@ -462,9 +462,9 @@ std::optional<int64_t> CgroupContext::getPgScanCumulative(
   if (const auto& memstat = memory_stat(err)) {
     if (auto pos = memstat->find(kPgScan); pos != memstat->end()) {
       return std::make_optional(pos->second);
-    } else {
-      throw std::runtime_error("Bad memory.stat format: missing pgscan entry");
     }
+    // older kernels do not report pgscan: the statistic is unavailable
+    return std::nullopt;
   }
   return std::nullopt;
 }
